@@ -6,6 +6,7 @@ M=/tmp/mut
 name="$1"; file="$2"; old="$3"; new="$4"
 mkdir -p $M
 if [ ! -d $M/repo ]; then git -C /repo worktree add -q --detach $M/repo HEAD; fi
+git -C $M/repo reset -q --hard
 git -C $M/repo checkout -q --detach "$(git -C /repo rev-parse HEAD)"
 git -C $M/repo reset -q --hard
 python3 - "$M/repo/$file" "$old" "$new" <<'PY'
